@@ -130,6 +130,9 @@ def gen_A(key, op):
     scn = S.gen_scenario(rng, ops=[op])
     T, Y, X = scn["cube"]["shape"]
     r = rng.random()
+    focus_pair = "/focus-pair-" in key
+    if focus_pair:
+        r = 0.45
     if r < 0.12 and T >= 2:
         parts = S.composition(rng, T)
         if len(parts) < 2:
@@ -155,7 +158,7 @@ def gen_A(key, op):
             for name, b in scn["secondary_backing"].items()
             if b == "dask"
         }
-    elif r < 0.40:
+    elif r < 0.46:
         # a second lazy result of the same operation (other data, drawn parameters) computed in one graph
         like = {k: scn["params"][k] for k in ("nodata_via", "float", "nodata_attr") if k in scn["params"]}
         p2 = S.gen_scenario(rng, force={"op": op, "shape": (T, Y, X), "dtype": scn["cube"]["dtype"], "layout": scn["layout"], "like": like})
@@ -172,7 +175,7 @@ def gen_A(key, op):
             p2["chunks"] = scn["chunks"]
             if op == "zonal_mean":
                 scn["params"]["name"] = p2["params"]["name"] = "zm"
-        if rng.random() < 0.35:
+        if rng.random() < 0.5 or focus_pair:
             # focus (s45): the SAME lazy cube feeds both results; they differ in parameters and/or in
             # the content of the secondary rasters only -- what a task name / cache key that covers
             # the data but not every other argument would confuse
@@ -202,10 +205,10 @@ def gen_A(key, op):
                 # declared "no zone"): every argument of the kernel must be part of the task identity
                 p2["params"]["znodata"] = rng.randrange(p2["params"]["nz"])
             # else: the very same call twice (dask merges the keys -- legitimately; both must be right)
-            if op == "zonal_mean" and rng.random() < 0.7:
+            if op == "zonal_mean" and rng.random() < 0.9:
                 scn["params"]["name"] = p2["params"]["name"] = "zm"
         scn["pair"] = p2
-    elif r < 0.70 and op != "dekad" and runner.relaxed(scn) in (None, "core-dim-chunked"):
+    elif r < 0.74 and op != "dekad" and runner.relaxed(scn) in (None, "core-dim-chunked"):
         # O11: the lazy cube has an upstream history and/or the result feeds a downstream consumer
         scn["pipe"] = S.gen_pipe(rng, scn)
     cfg = runner.gen_config(rng)
@@ -334,7 +337,7 @@ def gen_history(scn, key):
     steps = []
     cur = base
     for i in range(rng.randint(2, 4)):
-        kind = "first" if i == 0 else rng.choice(["same", "layout", "layout", "flip", "flip-inplace"] + (["retime-inplace"] * 3 if op == "spi" and cur["params"].get("cal") else []))
+        kind = "first" if i == 0 else rng.choice(["same", "layout", "layout", "flip", "flip-inplace"] + (["retime-inplace"] * 5 if op == "spi" and cur["params"].get("cal") else []))
         v = dict(cur)
         if kind in ("same", "flip") and i > 0 and cur.get("secondary") and rng.random() < 0.5:
             # the user edits a secondary raster (numpy-backed: IN PLACE, same object, same identity;
@@ -619,6 +622,10 @@ def job_op(job):
     nA = 0
     while not swA.expired() and nA < job.get("max_runs", 10**9):
         key = f"{seed}/A/{op}/{i}"
+        if nA % 8 == 3 and not job.get("dump"):
+            # focus mode for a rare conjunction (s45): two results of one operation hanging off the
+            # SAME lazy cube, differing in a raster / one argument only, computed in one graph
+            key = f"{seed}/A/{op}/focus-pair-{i}"
         i += 1
         nA += 1
         t_run = time.monotonic()
